@@ -16,15 +16,18 @@ from .C09 import (oZ, oB, oL, oP, attempt, coq_spec, mk_py, spec_freq, rand_spec
 ID = "C11"
 PROPS = "props/C11.v"
 GENERATED = [tr.OUT, tr2.OUT]
-CASE_DEPS = ["lib/CaseUtil.vo", "model/Codecs.vo", "model/CodecsExt.vo"]
+CASE_DEPS = ["lib/CaseUtil.vo", "model/Codecs.vo", "model/CodecsExt.vo", "model/CodecsExt2.vo"]
 ALLOWED_AXIOMS: set = set()
 TRUSTED = [
     "translator/dates.py: SDMX_REXP_FORMATS (regex strings -> regex ASTs), every to_sdmx/__repr__/to_iso f-string (-> format "
     "pieces), every from_sdmx_string body (-> parser descriptor), month_to_segment, the start/middle/end day tables",
     "lib/PyStr.v models str(int), int(str) on [+-]?digits, '{:0Wg}' for 0 <= n < 10^6, tuple repr, str.strip/removeprefix/"
     "removesuffix/split; lib/RegexSub.v models re.fullmatch for the pattern subset (language semantics, proved = derivative matcher)",
-    "eval(repr(p)) is modelled on the structured term (constructor name, integer arguments); the text of repr is compared "
-    "with the implementation and eval(repr(p)) == p is checked on the implementation",
+    "eval(repr(p)): the repr grammar name(int{,int}) is parsed by model/CodecsExt2.parse_repr (proved: the text of repr parses "
+    "to the structured term, whose evaluation is p); Python's eval of such a text = the constructor applied to the integers is "
+    "tied by correspondence (parse_repr on the implementation's repr text vs eval(text); repr text compared exactly)",
+    "Series.set_data with repeated periods keeps the last row written (model/CodecsExt2.series_lookup): correspondence only "
+    "(sheet_series: sheets with repeated / unsorted date cells)",
     "CPython datetime/calendar as the calendar oracle (see C09)",
     "translator/codecs_ext.py: the path of period_from_string / date_formatter through Databox.from_csv_file, _block_iterator, "
     "_extract_periods_from_data_rows, _ExportBlock.__iter__ (pinned statement shapes, no other binding of the names), the int() "
@@ -97,10 +100,16 @@ def cal_spec(rng, **kw):
 
 def gen_case(rng, pool: list[str]) -> dict:
     kind = rng.choice(["to_sdmx", "repr", "to_iso", "from_sdmx", "from_sdmx", "from_sdmx_as", "from_iso", "detect", "refrequent",
-                       "refrequent", "refrequent", "eval_repr", "pydate", "sdmx_rt", "iso_rt", "from_list"])
+                       "refrequent", "refrequent", "eval_repr", "pydate", "sdmx_rt", "iso_rt", "from_list", "repr_parse_eval", "parse_repr"])
     c = {"kind": kind}
-    if kind in ("to_sdmx", "repr", "eval_repr", "sdmx_rt"):
+    if kind in ("to_sdmx", "repr", "eval_repr", "sdmx_rt", "repr_parse_eval"):
         c["s"] = cal_spec(rng, sloppy=0.02)
+    elif kind == "parse_repr":
+        # the text the implementation's repr writes, fed to the model's parser of the repr grammar
+        try:
+            c["x"] = repr(mk_py(cal_spec(rng, sloppy=0))) if rng.random() < 0.85 else f"ii({rng.randint(-10 ** 9, 10 ** 6)})"
+        except Exception:  # noqa
+            c["x"] = "ii(-3)"
     elif kind in ("to_iso", "pydate", "iso_rt"):
         c["s"] = cal_spec(rng, freq=rng.choice([1, 2, 4, 12, 365]), sloppy=0.02)
         c["pos"] = rng.randrange(3)
@@ -135,11 +144,13 @@ def gen_case(rng, pool: list[str]) -> dict:
     return c
 
 
-EXT_KINDS = ("arith", "sheet_import", "sheet_export", "sheet_roundtrip")
+EXT_KINDS = ("arith", "sheet_import", "sheet_export", "sheet_roundtrip", "sheet_series")
 
 
 def gen_ext_case(rng) -> dict:
-    kind = rng.choice(["arith", "arith", "sheet_import", "sheet_import", "sheet_export", "sheet_roundtrip"])
+    kind = rng.choice(["arith", "arith", "sheet_import", "sheet_import", "sheet_export", "sheet_roundtrip", "sheet_series"])
+    if kind == "sheet_series":
+        return ext.gen_sheet_series(rng, cal_spec)
     if kind == "arith":
         return ext.gen_arith(rng, cal_spec)
     if kind == "sheet_import":
@@ -155,7 +166,7 @@ def run_case(c: dict):
     kind = c["kind"]
     if kind == "arith":
         return ext.run_arith(c, oS)
-    if kind == "sheet_import":
+    if kind in ("sheet_import", "sheet_series"):
         return ext.run_sheet_import(c, WORK_DIR["path"])
     if kind == "sheet_export":
         return ext.run_sheet_export(c, WORK_DIR["path"], oS)
@@ -173,6 +184,8 @@ def run_case(c: dict):
             return oZ(ir.Frequency.from_sdmx_string(c["x"]).value)
         if kind == "from_iso":
             return oP(ir.Period.from_iso_string(c["x"], frequency=ir.Frequency(c["f"])))
+        if kind == "parse_repr":
+            return oP(eval(c["x"], {"yy": ir.yy, "hh": ir.hh, "qq": ir.qq, "mm": ir.mm, "dd": ir.dd, "ii": ir.ii}))
         p = mk_py(c["s"])
         if kind == "to_sdmx":
             s = p.to_sdmx_string()
@@ -181,7 +194,7 @@ def run_case(c: dict):
             return oS(s)
         if kind == "repr":
             return oS(repr(p))
-        if kind == "eval_repr":
+        if kind in ("eval_repr", "repr_parse_eval"):
             return oP(eval(repr(p), {"yy": ir.yy, "hh": ir.hh, "qq": ir.qq, "mm": ir.mm, "dd": ir.dd, "ii": ir.ii}))
         if kind == "to_iso":
             return oS(p.to_iso_string(position=POS[c["pos"]]))
@@ -204,6 +217,10 @@ def coq_case(c: dict) -> str:
         return ext.coq_arith(c)
     if kind == "sheet_import":
         return ext.coq_sheet_import(c)
+    if kind == "sheet_series":
+        return ext.coq_sheet_import(c).replace("c_sheet_import", "c_sheet_series", 1)
+    if kind == "parse_repr":
+        return f"c_parse_repr {coq_str(c['x'])}"
     if kind in ("sheet_export", "sheet_roundtrip"):
         return ext.coq_sheet_rt(c)
     if kind == "from_sdmx":
@@ -223,6 +240,8 @@ def coq_case(c: dict) -> str:
         return f"c_repr {s}"
     if kind == "eval_repr":
         return f"c_eval_repr {s}"
+    if kind == "repr_parse_eval":
+        return f"c_repr_parse_eval {s}"
     if kind == "to_iso":
         return f"c_to_iso {c['pos']} {s}"
     if kind == "pydate":
@@ -319,7 +338,7 @@ def block_plan(ctx):
     return blocks
 
 
-HEADER = d9.HEADER.replace("model.Dates.", "model.Dates model.Codecs gen.CodecsExtGen model.CodecsExt.").replace(
+HEADER = d9.HEADER.replace("model.Dates.", "model.Dates model.Codecs gen.CodecsExtGen model.CodecsExt model.CodecsExt2.").replace(
     "lib.CaseUtil", "lib.PyStr lib.CaseUtil") + """
 Definition c_from_list (xs : list string) : obs :=
   match xs with
